@@ -272,6 +272,29 @@ def extract_u(p, xu):
         out += xu[t * st + p["nx"]:t * st + p["nx"] + p["nu"]]
     return out
 
+def oracle_status(cs, o):
+    """the status / iteration-count / residual clauses (documented meaning of the exit status)"""
+    bad = []
+    recs = o["records"]
+    st = o["status"]
+    P = cs.P_
+    if o["iterations"] > P("max_iter"):
+        bad.append(("PANOCOCP:iterations-exceed-max-iter", "iterations=%d > max_iter=%d" % (o["iterations"], P("max_iter"))))
+    if st == "MaxIter" and o["iterations"] != P("max_iter"):
+        bad.append(("PANOCOCP:maxiter-status-before-limit", "MaxIter with iterations=%d != %d" % (o["iterations"], P("max_iter"))))
+    if st == "Interrupted" and cs.stop_eval < 0 and cs.stop_cb < 0:
+        bad.append(("PANOCOCP:interrupted-without-request", "Interrupted although stop() was never called"))
+    if st == "Busy":
+        bad.append(("PANOCOCP:returned-busy", "solver returned Busy"))
+    tol = cs.tol if cs.tol > 0 else 1e-8
+    if recs and (st == "Converged") != (D(o, "eps") <= tol):
+        bad.append(("PANOCOCP:converged-iff-eps-le-tol", "status %s with eps=%r tol=%r" % (st, D(o, "eps"), tol)))
+    if st == "NotFinite" and math.isfinite(D(o, "eps")):
+        bad.append(("PANOCOCP:notfinite-with-finite-eps", "status NotFinite although the reported residual eps=%r is finite" % D(o, "eps")))
+    if recs and recs[-1]["status"] != st:
+        bad.append(("PANOCOCP:final-callback-status-differs", "final callback status %s, returned status %s" % (recs[-1]["status"], st)))
+    return bad
+
 def oracle(cs, o):
     bad = []
     crit = cs.P_("crit")
@@ -285,17 +308,7 @@ def oracle(cs, o):
     st = o["status"]
     P = cs.P_
     p = cs.prob
-    if o["iterations"] > P("max_iter"):
-        bad.append(("PANOCOCP:iterations-exceed-max-iter", "iterations=%d > max_iter=%d" % (o["iterations"], P("max_iter"))))
-    if st == "MaxIter" and o["iterations"] != P("max_iter"):
-        bad.append(("PANOCOCP:maxiter-status-before-limit", "MaxIter with iterations=%d != %d" % (o["iterations"], P("max_iter"))))
-    if st == "Interrupted" and cs.stop_eval < 0 and cs.stop_cb < 0:
-        bad.append(("PANOCOCP:interrupted-without-request", "Interrupted although stop() was never called"))
-    if st == "Busy":
-        bad.append(("PANOCOCP:returned-busy", "solver returned Busy"))
-    tol = cs.tol if cs.tol > 0 else 1e-8
-    if recs and (st == "Converged") != (D(o, "eps") <= tol):
-        bad.append(("PANOCOCP:converged-iff-eps-le-tol", "status %s with eps=%r tol=%r" % (st, D(o, "eps"), tol)))
+    bad += oracle_status(cs, o)
     for r in recs:
         u, pp_, uh = extract_u(p, V(r, "xu")), V(r, "p"), extract_u(p, V(r, "xhu"))
         if all(math.isfinite(t) for t in u + pp_ + uh):
@@ -403,6 +416,7 @@ def oracle_nan_sweep(cs, o):
     bad = []
     if "exc" in o: return bad
     recs = o.get("records", [])
+    bad += oracle_status(cs, o)
     for a, b in zip(recs, recs[1:]):
         tau = D(a, "tau")
         if a["status"] == "Busy" and tau > 0 and not math.isfinite(D(b, "psi")) and math.isfinite(D(a, "psi")):
